@@ -225,9 +225,16 @@ func TestVerifC09PruneCrashPrefixes(t *testing.T) {
 		// a transient failure of op k; op k applied but reported as failed
 		if len(log) > 0 {
 			k := rapid.IntRange(0, len(log)-1).Draw(t, "failAt")
-			mode := rapid.SampledFrom([]string{"failfrom", "failonce", "failafterapply", "cancel"}).Draw(t, "failmode")
+			mode := rapid.SampledFrom([]string{"failfrom", "failonce", "failafterapply", "cancel", "failone", "failone"}).Draw(t, "failmode")
 			fs := e.store.StateAt(0)
 			fe := e.OnStore(fs)
+			if mode == "failone" {
+				// exactly one logical request fails for good (above the retry layer), everything after
+				// it works again: exposes swallowed errors (a seeded change that dropped the error of a
+				// failed index save in prune was invisible to crash prefixes)
+				base := fe
+				fe, _ = base.WithFailOne(k)
+			}
 			f := vbe.NoFaults()
 			ctx, cancel := context.WithCancel(context.Background())
 			switch mode {
